@@ -49,7 +49,8 @@ Inductive elem :=
 | EStr (s : string).
 
 Inductive cell :=
-| Float (q : Q)         (* finite Python float *)
+| Float (q : Q)         (* finite Python float (-0.0 is Float 0: equal to 0.0 for pandas) *)
+| FloatInf (neg : bool) (* +inf / -inf in a float column: inf % 1 is NaN, so never "whole" *)
 | Int (z : Z)
 | Bool (b : bool)
 | Str (s : string)      (* a string pandas does not parse as a date *)
@@ -75,7 +76,7 @@ Definition is_strlike (c : cell) : bool := match c with Str _ | DateStr _ _ _ =>
 Definition is_datestr (c : cell) : bool := match c with DateStr _ _ _ => true | _ => false end.
 Definition is_bool_cell (c : cell) : bool := match c with Bool _ => true | _ => false end.
 Definition is_int_cell (c : cell) : bool := match c with Int _ => true | _ => false end.
-Definition is_num_cell (c : cell) : bool := match c with Int _ | Float _ => true | _ => false end.
+Definition is_num_cell (c : cell) : bool := match c with Int _ | Float _ | FloatInf _ => true | _ => false end.
 
 (* ser.isna().any() ; ser.dropna() *)
 Definition has_nan (col : list cell) : bool := existsb is_missing col.
@@ -106,6 +107,7 @@ Definition cell_eqb (a b : cell) : bool :=
   | Float p, Float q => Qeq_bool p q
   | Float p, Int z => Qeq_bool p (inject_Z z)
   | Int z, Float p => Qeq_bool (inject_Z z) p
+  | FloatInf a, FloatInf b => Bool.eqb a b
   | Int x, Int y => Z.eqb x y
   | Bool x, Bool y => Bool.eqb x y
   | Str s, Str t => String.eqb s t
